@@ -68,6 +68,8 @@ def _enum_member(d, t):
 
 def zone(d, t, top=True):
     k = d["k"]
+    if any(c in t for c in "\t\r\n"):
+        return R          # a field cannot contain the field or line separators
     if "null" in d and top and t == d["null"]:
         return (A, [0])
     if k == "text":
